@@ -62,6 +62,9 @@ pub enum COp {
 pub struct Scenario {
     pub flavour: Flavour,
     pub access: Access,
+    /// integer flavour: digits spread up to 4^30 (values beyond 2^53 and u32::MAX); reads through get() only,
+    /// the exposed f64 cannot hold such values exactly
+    pub wide: bool,
     pub with_reset: bool,
     pub threads: Vec<Vec<COp>>,
 }
@@ -305,6 +308,7 @@ pub fn generate(rng: &mut Rng, job: &Job) -> Scenario {
         _ => Access::VecChildMap,
     };
     let with_reset = rng.chance(1, 5);
+    let wide = flavour == Flavour::U64 && !with_reset && rng.chance(1, 4);
     let small = job.engine == Engine::Native;
     let nthreads = if small { 2 + rng.usize_below(2) } else { 2 + rng.usize_below(3) };
     let max_ops = if small { 3 } else { 5 };
@@ -348,7 +352,24 @@ pub fn generate(rng: &mut Rng, job: &Job) -> Scenario {
         }
         threads.push(ops);
     }
-    Scenario { flavour, access, with_reset, threads }
+    if wide {
+        // spread the digits over the whole u64 range and read exactly
+        let used: Vec<usize> = (1..next_digit).collect();
+        let mut targets: Vec<usize> = (1..31).collect();
+        rng.shuffle(&mut targets);
+        let map: std::collections::HashMap<usize, usize> = used.iter().copied().zip(targets.into_iter()).collect();
+        for ops in threads.iter_mut() {
+            for op in ops.iter_mut() {
+                match op {
+                    COp::IncBy(j) => *j = map[j],
+                    COp::Batch { digits, .. } => digits.iter_mut().for_each(|j| *j = map[j]),
+                    COp::Read(v) => *v = Via::Get,
+                    _ => {}
+                }
+            }
+        }
+    }
+    Scenario { flavour, access, wide, with_reset, threads }
 }
 
 fn via_name(v: Via) -> &'static str {
@@ -382,6 +403,7 @@ pub fn scenario_json(sc: &Scenario) -> Json {
         "flavour" => format!("{:?}", sc.flavour),
         "access" => format!("{:?}", sc.access),
         "with_reset" => sc.with_reset,
+        "wide_digits" => sc.wide,
         "threads" => Json::Arr(threads),
     }
 }
@@ -453,7 +475,8 @@ pub fn execute(sc: &Scenario, job: &Job, case: u64) -> Execution {
     // after all threads joined: read through every path
     let fin: Sinks<CRec> = Sinks::new(1);
     if outcome.abort.is_none() {
-        for via in [Via::Get, Via::Metric, Via::Collect, Via::Gather] {
+        let vias: &[Via] = if sc.wide { &[Via::Get] } else { &[Via::Get, Via::Metric, Via::Collect, Via::Gather] };
+        for via in vias.iter().copied() {
             fin.call(0, || world.read(via), |r| CRec::Read { value: r.0, raw: r.1.clone(), via });
         }
     }
